@@ -99,6 +99,8 @@ def clone(v):
         return Enum(v.discr, {k: clone(x) for k, x in v.v.items()}, v.name)
     if isinstance(v, Closure):
         return Closure(v.span, {k: clone(x) for k, x in v.caps.items()})
+    if isinstance(v, Native) and v.kind == "map":
+        return Native("map", {k: {"present": e["present"], "val": clone(e["val"])} for k, e in v.data.items()})
     return v
 
 
@@ -193,6 +195,7 @@ class Ctx:
         self.depth = 0
         self.resumed = False
         self.just_returned = False
+        self.statics = {}
 
     def clone(self):
         c = Ctx(self.eng, self.tid)
@@ -203,6 +206,7 @@ class Ctx:
         c.trace = list(self.trace)
         c.nfid = self.nfid
         c.depth = self.depth
+        c.statics = {k: clone(v) for k, v in self.statics.items()}
         return c
 
     def guard(self):
@@ -364,7 +368,7 @@ class Engine:
                 raise Unsupported(f"path explosion: > {self.max_paths} paths")
         return leaves
 
-    def run_script(self, tid, name, script):
+    def run_script(self, tid, name, script, ctx0=None):
         """A thread that performs several steps in sequence. `script()` is a generator; every effect goes through a
         request it yields (so that a path can be re-played after a fork):
           ('call', body, args) -> return value      ('branch', cond) -> True/False (forks)
@@ -373,7 +377,7 @@ class Engine:
         The generator's return value is the leaf's result."""
         self.thread_names[tid] = name
         leaves = []
-        work = [(Ctx(self, tid), [])]
+        work = [(ctx0 if ctx0 is not None else Ctx(self, tid), [])]
         while work:
             ctx, replay = work.pop()
             gen = script()
@@ -399,8 +403,20 @@ class Engine:
                         leaves.append(x)
                 # merge the paths through this call whose results are identical: the continuation is shared
                 for grp in done.values():
-                    m = merge_ctxs([x.ctx for x in grp])
-                    work.append((m, replay + [grp[0].ret]))
+                    merged = []
+                    for x in grp:
+                        ok = False
+                        for m in merged:
+                            try:
+                                merge_two(self, m, x.ctx)
+                                ok = True
+                                break
+                            except MergeFail:
+                                continue
+                        if not ok:
+                            merged.append(x.ctx)
+                    for m in merged:
+                        work.append((m, replay + [grp[0].ret]))
             elif kind == "branch":
                 cond = req[1]
                 for val, c in ((True, cond), (False, z3.Not(cond))):
@@ -420,6 +436,19 @@ class Engine:
             elif kind == "alloc":
                 oid = ctx.alloc(req[1], req[2])
                 work.append((ctx, replay + [oid]))
+            elif kind == "dropval":
+                h = self.models.get("__drop__")
+                r = h(self, ctx, None, req[1], req[2]) if h else None
+                if r is None:
+                    work.append((ctx, replay + [None]))
+                else:
+                    for k2, c2 in r:
+                        work.append((c2, replay + [None]))
+            elif kind == "setstatic":
+                ctx.statics[req[1]] = req[2]
+                work.append((ctx, replay + [None]))
+            elif kind == "getstatic":
+                work.append((ctx, replay + [ctx.statics.get(req[1])]))
             else:
                 raise Unsupported(f"script request {req}")
             if len(leaves) + len(work) > self.max_paths:
@@ -526,6 +555,9 @@ class Engine:
                 r = self.exec_drop(ctx, f, term[1])
                 f.bb = term[2]
                 if r is not None:
+                    for kind2, c2 in r:
+                        if kind2 == "ctx":
+                            c2.frames[-1].bb = term[2]
                     return r
             elif k == "call":
                 r = self.exec_call(ctx, f, term)
@@ -631,7 +663,7 @@ class Engine:
         if r[0] == "obj":
             return self.heap_read(ctx, r[1], ptr.path, ty or ptr.meta, atomic=False, order="NA", label="deref")
         if r[0] == "static":
-            return self.navigate(ctx, self.statics[r[1]], ptr.path)
+            return self.navigate(ctx, ctx.statics[r[1]], ptr.path)
         raise Unsupported(f"load through {ptr}")
 
     def navigate(self, ctx, v, path):
@@ -641,6 +673,11 @@ class Engine:
                     raise Unsupported(f"downcast of non-enum {v}")
                 idx = self.variant_index(v.name, comp[1])
                 v = v.v.setdefault(idx, Agg())
+            elif isinstance(comp, tuple) and comp[0] == "mapval":
+                if isinstance(v, Native) and v.kind == "map":
+                    v = v.data[comp[1]]["val"]
+                else:
+                    raise Unsupported(f"map value of {v}")
             elif isinstance(comp, tuple) and comp[0] == "idx":
                 if isinstance(v, Agg):
                     i = concrete(comp[1])
@@ -688,12 +725,30 @@ class Engine:
         if r[0] == "obj":
             self.heap_write(ctx, r[1], ptr.path, val, ty or ptr.meta, atomic=False, order="NA", label="store")
             return
+        if r[0] == "static":
+            if not ptr.path:
+                ctx.statics[r[1]] = val
+            else:
+                self.store_into(ctx, ctx.statics, r[1], ptr.path, val)
+            return
         raise Unsupported(f"store through {ptr}")
 
     def store_into(self, ctx, container, key, path, val):
         cur = container[key]
         comp = path[0]
         rest = path[1:]
+        if isinstance(comp, tuple) and comp[0] == "mapval":
+            if not (isinstance(cur, Native) and cur.kind == "map"):
+                raise Unsupported("mapval store into a non-map")
+            new = Native("map", {k: dict(v) for k, v in cur.data.items()})
+            container[key] = new
+            if not rest:
+                new.data[comp[1]]["val"] = val
+            else:
+                holder = {"v": clone(new.data[comp[1]]["val"])}
+                self.store_into(ctx, holder, "v", rest, val)
+                new.data[comp[1]]["val"] = holder["v"]
+            return
         if isinstance(comp, tuple) and comp[0] == "variant":
             if not isinstance(cur, Enum):
                 cur = Enum(None, {}, None)
@@ -854,6 +909,16 @@ class Engine:
             if t.startswith("{closure@"):
                 return Closure(t, {})
             return FnItem(t)
+        mm = re.search(r"(\w+)::promoted\[(\d+)\]$", c)
+        if mm:
+            # promoted constant of the function being executed (or of a caller that passed it on)
+            cands = [b for n, b in self.prog.bodies.items() if n.endswith(f"::{mm.group(1)}::promoted[{mm.group(2)}]") or n == f"{mm.group(1)}::promoted[{mm.group(2)}]"]
+            own = [b for b in cands if b.name == f"{f.body.name}::promoted[{mm.group(2)}]"]
+            pick = own or cands
+            if len(pick) == 1:
+                v = self.eval_const_body(ctx, pick[0])
+                return v
+            raise Unsupported(f"promoted constant {c}: {len(cands)} candidates")
         # named constant of the crate (scenario may override, e.g. a smaller block size)
         last = strip_generics(c).split("::")[-1]
         if last in self.const_override:
@@ -874,11 +939,23 @@ class Engine:
         """evaluate a `const NAME: T = { ... }` body (straight-line)"""
         c2 = Ctx(self, ctx.tid)
         c2.pc = list(ctx.pc)
+        c2.statics = ctx.statics
         self.push_frame(c2, b, [], None)
-        out = self.run(c2)
+        fr = c2.frames[-1]
+        merging, self.merging = self.merging, False
+        try:
+            out = self.run(c2)
+        finally:
+            self.merging = merging
         if len(out) != 1 or out[0][0] != "leaf" or out[0][1].status != "done":
             raise Unsupported(f"const body {b.name} is not straight-line")
-        return out[0][1].ret
+        ret = out[0][1].ret
+        if isinstance(ret, Ptr) and ret.root[0] == "local" and ret.root[1] == fr.fid:
+            # a promoted `&CONST`: keep the pointee alive as a static
+            key = "const:" + b.name
+            ctx.statics[key] = fr.locals[ret.root[2]]
+            return Ptr(("static", key), ret.path, ret.meta)
+        return ret
 
     def eval_operand(self, ctx, f, op):
         k = op[0]
@@ -1504,6 +1581,20 @@ def merge_val(a, b, c):
     if isinstance(a, Native) and isinstance(b, Native) and a.kind == b.kind:
         if isinstance(a.data, list) and isinstance(b.data, list) and len(a.data) == len(b.data):
             return Native(a.kind, [merge_val(x, y, c) for x, y in zip(a.data, b.data)])
+        if a.kind == "map":
+            out = {}
+            for k in set(a.data) | set(b.data):
+                ea = a.data.get(k, {"present": False, "val": None})
+                eb = b.data.get(k, {"present": False, "val": None})
+                pa = z3.BoolVal(ea["present"]) if isinstance(ea["present"], bool) else ea["present"]
+                pb = z3.BoolVal(eb["present"]) if isinstance(eb["present"], bool) else eb["present"]
+                pres = ea["present"] if (isinstance(ea["present"], bool) and isinstance(eb["present"], bool) and ea["present"] == eb["present"]) else z3.If(c, pa, pb)
+                if ea["val"] is None or eb["val"] is None:
+                    val = ea["val"] if ea["val"] is not None else eb["val"]
+                else:
+                    val = merge_val(ea["val"], eb["val"], c)
+                out[k] = {"present": pres, "val": val}
+            return Native("map", out)
         if a.kind == "slice":
             return Native("slice", (merge_val(a.data[0], b.data[0], c), merge_val(a.data[1], b.data[1], c)))
         if a.data is b.data:
@@ -1530,6 +1621,11 @@ def merge_two(eng, x, y):
             else:
                 out[k] = fx.locals.get(k, fy.locals.get(k))
         new_locals.append(out)
+    if x.statics or y.statics:
+        ns = {}
+        for k in set(x.statics) | set(y.statics):
+            ns[k] = merge_val(x.statics[k], y.statics[k], cx) if k in x.statics and k in y.statics else x.statics.get(k, y.statics.get(k))
+        x.statics = ns
     for fx, fy, loc in zip(x.frames, y.frames, new_locals):
         fx.locals = loc
         for k, v in fy.visits.items():
